@@ -201,7 +201,9 @@ def _eval_chunk(args):
     for c in cases:
         try:
             r = mod.eval_case(c)
-        except Exception as e:  # harness crash: reported as exit 2, never as a violation
+        except (KeyboardInterrupt, SystemExit):
+            raise
+        except BaseException as e:  # harness crash (incl. adapter errors): reported as exit 2, never as a violation
             import traceback
             r = {"crash": traceback.format_exc()}
         out.append(r)
